@@ -30,6 +30,7 @@ type World struct {
 	needTdiv bool
 	maxCands int
 	mirrorUsed []string
+	untagged   []string // non-assumed contracts without a props tag (never verified)
 	overlay  map[string][]byte
 	loadSecs float64
 	constGlobals map[*ssa.Global]*constGlobal
@@ -230,6 +231,11 @@ func (w *World) addFile(cf *ContractFile) {
 			}
 		} else if c.PkgPath != "" {
 			key = c.PkgPath + "::" + c.Key
+			if !c.Assumed && !c.Lemma && len(c.Props) == 0 {
+				// a contract that is neither marked `assumed` nor tagged with a
+				// property would be relied on by callers and never checked
+				w.untagged = append(w.untagged, key)
+			}
 		}
 		w.contracts[key] = c
 	}
